@@ -214,6 +214,17 @@ class HeapCol:
         self.hi = hi
 
 
+SetT = z3.DeclareSort("SetT")
+subset_of = z3.Function("subset_of", SetT, SetT, z3.BoolSort())
+
+
+class SetV:
+    """an abstract finite set (uninterpreted sort); `a <= b` is the subset relation (assumed: reflexive, transitive)"""
+
+    def __init__(self, term):
+        self.term = term
+
+
 class Opaque:
     """A value the executor carries around but cannot look into (strings built by formatting, loggers...)."""
 
